@@ -21,7 +21,7 @@ from ..rules import undef
 from ..rules.selfattrs import SelfAttrs
 
 KEEP_LOGGING = True  # attribute reads inside log calls on the resume path are reads like any other
-TECHNIQUE = "R-PICKLE: extraction of dropped/nulled/added keys from every __getstate__, interprocedural must-write-before-read of self attributes along the resume entry points, who-reads pickle-only attributes; R-WRITERS on cumulative counters; R-ORDER over sibling loops for stale-after-unpickle fields; R-UNDEF on the resume call tree; generic value-preservation rule over every __getstate__; R-COVER"
+TECHNIQUE = "R-PICKLE: extraction of dropped/nulled/added keys from every __getstate__, interprocedural must-write-before-read of self attributes along the resume entry points, who-reads pickle-only attributes; R-WRITERS on cumulative counters; R-ORDER over sibling loops for stale-after-unpickle fields; R-UNDEF on the resume call tree; generic value-preservation rule over every __getstate__; R-COVER; call-graph rule from the resume path into the state-changing methods of the reparameterisations"
 
 GETSTATE_CLASSES = [
     tables.BASE, tables.INS, tables.OS_, tables.PROPOSAL, tables.FP, tables.IFP, tables.FM, tables.IFM, tables.MODEL,
@@ -554,7 +554,7 @@ def _enclosing_stmt(fnode, node):
 
 
 CLAIM = {
-    "text": "Decides pickle coverage for all nine classes with a custom __getstate__: the set of attributes each drops, nulls or adds is extracted from the source, and an interprocedural must-write-before-read analysis on the receiver (following self.m(), super().m(), property getters/setters) proves that each dropped attribute is re-established by the resume entry point (or __setstate__, or a reviewed lazy rebuilding site whose ordering is itself checked) before anything on that path reads it - for every in-package subclass that inherits the entry point. Also decides: pickle-only attributes (mask, weights_file, resume_populated, _previous_*) are written on every __getstate__ path and read only on the resume path; evaluation counters/times are augmented not assigned; sampling_time is never reset; every sampling loop refreshes the stale pickled start time before the first checkpoint (found missing in the importance sampler: repaired); no local in the ~100-function resume call tree can be unbound (found in FlowProposal.resume: repaired). On resume the density table of each INS store is recomputed at the samples of that same store. In every __getstate__ of the package (reviewed or new) an existing attribute is pickled with its live value, dropped, nulled or flag-reset, never replaced by a different value; for classes outside the reviewed table whatever is dropped must be re-assigned by __setstate__ / resume(). Density tables re-derived in batches cover every row (R-COVER, C12.6).",
+    "text": "Decides pickle coverage for all nine classes with a custom __getstate__: the set of attributes each drops, nulls or adds is extracted from the source, and an interprocedural must-write-before-read analysis on the receiver (following self.m(), super().m(), property getters/setters) proves that each dropped attribute is re-established by the resume entry point (or __setstate__, or a reviewed lazy rebuilding site whose ordering is itself checked) before anything on that path reads it - for every in-package subclass that inherits the entry point. Also decides: pickle-only attributes (mask, weights_file, resume_populated, _previous_*) are written on every __getstate__ path and read only on the resume path; evaluation counters/times are augmented not assigned; sampling_time is never reset; every sampling loop refreshes the stale pickled start time before the first checkpoint (found missing in the importance sampler: repaired); no local in the ~100-function resume call tree can be unbound (found in FlowProposal.resume: repaired). On resume the density table of each INS store is recomputed at the samples of that same store. In every __getstate__ of the package (reviewed or new) an existing attribute is pickled with its live value, dropped, nulled or flag-reset, never replaced by a different value; for classes outside the reviewed table whatever is dropped must be re-assigned by __setstate__ / resume(). Density tables re-derived in batches cover every row (R-COVER, C12.6). Nothing on the resume path of FlowProposal.initialise reaches a state-changing method of the pickled reparameterisations, unless inside a save / write-back of their state (C12.9).",
     "note": "Does not decide observational equality of the restored state (needs a run), float32 agreement of recomputed densities, or multi-kill histories beyond C11/C13. Trusted: pickle round-trips attributes that __getstate__ keeps.",
 }
 
